@@ -65,6 +65,14 @@ try:
         meta['tests'] = dict(stable_pass=len(base['stable_pass']), still_passing=len(base['stable_pass']) - len(missing),
                              no_longer_passing=missing[:10], tail=r.stdout.strip().splitlines()[-1:] )
         os.remove(junit)
+    else:
+        # re-check of an already filed seed: keep the recorded suite result
+        prev = os.path.join(HERE, 'seeded', a.seed_id, 'meta.json')
+        if os.path.exists(prev):
+            old = json.load(open(prev))
+            if 'tests' in old:
+                meta['tests'] = old['tests']
+                meta['ran'].insert(3, '(pinned suite not re-run: result kept from the first confirmation of this seed)')
     # ---- demo ------------------------------------------------------------------------------
     r1 = sh(['/venv/bin/python', '-B', demo, wt], timeout=900)
     r0 = sh(['/venv/bin/python', '-B', demo, '/repo'], timeout=900)
@@ -89,10 +97,12 @@ meta['confirmed'] = bool(ok)
 out = os.path.join(HERE, 'seeded', a.seed_id)
 if ok:
     os.makedirs(out, exist_ok=True)
-    shutil.copy(patch, os.path.join(out, 'patch.diff'))
-    shutil.copy(demo, os.path.join(out, 'demo.py'))
+    if os.path.abspath(a.src) != os.path.abspath(out):
+        shutil.copy(patch, os.path.join(out, 'patch.diff'))
+        shutil.copy(demo, os.path.join(out, 'demo.py'))
     if os.path.exists(os.path.join(a.src, 'notes.md')):
-        shutil.copy(os.path.join(a.src, 'notes.md'), os.path.join(out, 'notes.md'))
+        if os.path.abspath(a.src) != os.path.abspath(out):
+            shutil.copy(os.path.join(a.src, 'notes.md'), os.path.join(out, 'notes.md'))
         meta['needs_to_manifest'] = 'see notes.md (author\'s description of the trigger)'
     with open(os.path.join(out, 'meta.json'), 'w') as f:
         json.dump(meta, f, indent=1)
